@@ -486,8 +486,14 @@ impl Property for C18 {
     fn run_choices(&self, ctx: &mut Ctx) -> Outcome {
         let mut nw = NetWorld::new(ctx.src.u16() as u64);
         let limit = 1 + ctx.src.below(3);
-        nw.servers.push(mk_server(0, 1, PROTO, limit, nw.now, true));
-        nw.servers.push(mk_server(1, 1, PROTO, 8, nw.now, true));
+        // a tenth of the cases run the servers in the Unsecure development mode (tokens sealed with the all-zero key)
+        let unsecure = ctx.src.chance(25);
+        if unsecure {
+            ctx.label("unsecure_server");
+        }
+        let token_key = if unsecure { [0u8; 32] } else { key(1) };
+        nw.servers.push(mk_server(0, 1, PROTO, limit, nw.now, !unsecure));
+        nw.servers.push(mk_server(1, 1, PROTO, 8, nw.now, !unsecure));
         let streaming = ctx.src.chance(110);
         if streaming {
             ctx.label("streaming");
@@ -513,7 +519,7 @@ impl Property for C18 {
                 ctx.label("challenge_then_silent_address");
             }
             let expire = ctx.src.pick(&[600u64, 600, 8, 20]);
-            let t = w.nw.mint(&TokenSpec { client_id: 700 + i as u64, user: i as u64, expire_seconds: expire, timeout, addrs, key: key(1), protocol: PROTO });
+            let t = w.nw.mint(&TokenSpec { client_id: 700 + i as u64, user: i as u64, expire_seconds: expire, timeout, addrs, key: token_key, protocol: PROTO });
             let expire_ts = w.nw.now.as_secs() + expire;
             w.nw.add_client(t, client_addr(i), i as u64);
             if n_silent > 0 {
